@@ -1,2 +1,3 @@
 import FimVerif.Drivers.Proto
 import FimVerif.Proofs.C15
+import FimVerif.Proofs.C18
